@@ -26,6 +26,29 @@ def _limits():
     os.setsid()
 
 
+CHILDREN = set()
+
+
+def kill_children(*_a):
+    for pid in list(CHILDREN):
+        try:
+            os.killpg(pid, 9)
+        except Exception:
+            pass
+    if _a:
+        os._exit(2)
+
+
+import signal
+import atexit
+atexit.register(kill_children)
+try:
+    signal.signal(signal.SIGTERM, kill_children)
+    signal.signal(signal.SIGINT, kill_children)
+except Exception:
+    pass
+
+
 def sh(cmd, cwd, timeout, log):
     t0 = time.time()
     with open(log, 'ab') as lf:
@@ -33,6 +56,7 @@ def sh(cmd, cwd, timeout, log):
         lf.flush()
         try:
             p = subprocess.Popen(cmd, cwd=cwd, stdout=subprocess.PIPE, stderr=lf, preexec_fn=_limits)
+            CHILDREN.add(p.pid)
             try:
                 out, _ = p.communicate(timeout=timeout)
             except subprocess.TimeoutExpired:
@@ -43,7 +67,7 @@ def sh(cmd, cwd, timeout, log):
                 p.communicate()
                 raise Infra("timeout after %ds: %s" % (timeout, ' '.join(cmd[:3])))
         finally:
-            pass
+            CHILDREN.discard(p.pid)
     return p.returncode, out, time.time() - t0
 
 
